@@ -486,7 +486,7 @@ func c16NoErrorDropped(r *an.Run) {
 				}
 			}
 			if !used {
-				if why, ok := droppedErrorExceptions[name]; ok && an.Path(call.Call.Args[0]) == "cmd.Stderr" {
+				if why, ok := droppedErrorExceptions[name]; ok && isCmdStderr(call.Call.Args[0]) {
 					r.Pass(key+"|stderr", c.Pos(), "exception: %s", why)
 					continue
 				}
@@ -695,7 +695,7 @@ func c16ExitStatus(r *an.Run, m *runModel) {
 			seen := false
 			for _, b := range p.Blocks {
 				for _, in := range b.Instrs {
-					if c, ok := in.(*ssa.Call); ok && an.IsCallTo(c, "fmt.Fprintln", "fmt.Fprintf", "fmt.Fprint") && an.Path(c.Call.Args[0]) == "cmd.Stderr" && derivesFrom(c, runCall) {
+					if c, ok := in.(*ssa.Call); ok && an.IsCallTo(c, "fmt.Fprintln", "fmt.Fprintf", "fmt.Fprint") && isCmdStderr(c.Call.Args[0]) && derivesFrom(c, runCall) {
 						seen = true
 					}
 				}
@@ -1035,4 +1035,22 @@ func pathTakesAnErrorEdge(p an.DPath, not ssa.Value) bool {
 		}
 	}
 	return false
+}
+
+// isCmdStderr: v is the Stderr field of the command (cmd.Stderr), whether the
+// command is held in a local or behind a pointer (cmd := &mainCmd{…}).
+func isCmdStderr(v ssa.Value) bool {
+	if an.Path(v) == "cmd.Stderr" {
+		return true
+	}
+	ld, ok := v.(*ssa.UnOp)
+	if !ok || ld.Op != token.MUL {
+		return false
+	}
+	fa, ok := ld.X.(*ssa.FieldAddr)
+	if !ok || fieldNameOf(fa) != "Stderr" {
+		return false
+	}
+	n, ok := derefType(fa.X.Type()).(*types.Named)
+	return ok && n.Obj().Name() == "mainCmd"
 }
